@@ -59,7 +59,10 @@
 //!   H / L          in a BGP case print x:<addresses whose connection the unit closed during the reload>
 //! Script variants (rib-in-pre is what the RIB units fetch when they are started): 1..8 `rib-in-pre` rejects the routes of
 //! prefix 10.<s>.0.0/16 (prefix s of the R ops; the peers of these cases have no 4-octet-AS capability, so the AS-path
-//! predicates see nothing in their routes); 9 a script without a rib-in-pre filter.
+//! predicates see nothing in their routes); 9 a script without a rib-in-pre filter. 10 + r / 20 + r (r = 0..9): the ingress units' own
+//! filters - `bmp-in` rejects every message whose per-peer header has AS 65002 / 65003 (`prov.peer_asn() == AS<n>`: pool peers 6 / 8),
+//! `bgp-in` rejects every UPDATE of the speaker with AS 65101 / 65100 (address 1 / 0) - and the rib-in-pre of variant r (0, 9: none).
+//! The ingress units fetch theirs when they are STARTED (start-up; a bmp-in that a reload puts back), as the RIB units do.
 //! A case with F / W / Y ops keeps its files in <verif>/.cache/e2e/<pid>-<n>/ and loads the configuration from the file
 //! (ConfigFile::load, as src/main.rs does at start-up and on SIGHUP); `roto_script` is relative to the configuration file.
 //! Per op one token (`-` for the non-observing ones); M prints two:
@@ -81,8 +84,14 @@ const UNIT2: &str = "bmp-in2";
 const UNITS: [&str; 2] = [UNIT, UNIT2];
 const LISTS: [&str; 2] = ["/routers/", "/routers2/"];
 const STALL_MS: u64 = 3000;
+/// how long an UPDATE that the bgp-in filter should reject is given to come out of the unit's gate after all
+const REJECT_WAIT_MS: u64 = 60;
 /// how long the harness's thread holds the compiled script's mutex around a load (op FH)
 const HOLD_MS: u64 = 200;
+/// ... the gaps between its holds (a unit that waits needs some tens of microseconds to wake up and take the mutex; the unit whose
+/// turn comes next is there a few hundred microseconds later) and the length of the later holds
+const HOLD_GAPS_US: [u64; 5] = [20, 60, 150, 400, 1200];
+const HOLD_AGAIN_MS: u64 = 50;
 /// a prefix query of a vRIB (trigger to the physical RIB, result back through the chain) normally takes a millisecond
 const VRIB_STALL_MS: u64 = 1500;
 const MAX_VRIBS: u32 = 3;
@@ -172,7 +181,20 @@ struct Desired {
 
 fn script_name(n: u32) -> String { if n == 0 { "filters.roto".into() } else { format!("filters-{n}.roto") } }
 
+/// the AS whose messages the `bmp-in` / `bgp-in` filter of script variant s rejects (`prov.peer_asn() == AS<n>`): variants 10..19
+/// reject the BMP peers of AS 65002 and the BGP speaker of address 1 (AS 65101), variants 20..29 AS 65003 and speaker 0 (AS 65100)
+fn ingress_rejects(s: u32) -> Option<(u32, u32)> {
+    match s / 10 { 1 => Some((65002, 65101)), 2 => Some((65003, 65100)), _ => None }
+}
+
 fn script_text(s: u32) -> String {
+    if let Some((bmp_as, bgp_as)) = ingress_rejects(s) {
+        // variants 10..29: the ingress units' own filters, and the rib-in-pre of variant s mod 10 (0 / 9: none)
+        let mut t = format!("filter bmp-in(bmp_msg: BmpMsg, prov: Provenance) {{\n    if prov.peer_asn() == AS{bmp_as} {{\n        reject\n    }} else {{\n        accept\n    }}\n}}\n\n\
+                             filter bgp-in(bgp_msg: BgpMsg, prov: Provenance) {{\n    if prov.peer_asn() == AS{bgp_as} {{\n        reject\n    }} else {{\n        accept\n    }}\n}}\n");
+        if (1..=8).contains(&(s % 10)) { t += "\n"; t += &script_text(s % 10); }
+        return t;
+    }
     if s == 9 {
         return "filter bmp-in(bmp_msg: BmpMsg, prov: Provenance) {\n    accept\n}\n".into();
     }
@@ -245,6 +267,7 @@ struct BgpSide {
     accepted: u64,                   // TCP connections made to the unit's listener
     updates: u64,                    // updates the unit's gate must have sent: one per UPDATE written, one per ended session
     seen: BTreeMap<u32, Vec<u32>>,   // address -> the ingress ids the RIB has shown for it, by first appearance
+    in_reject: Option<u32>,          // the AS that the `bgp-in` filter of the start-up script rejects (the unit is never restarted)
 }
 
 fn bgp_frame(ty: u8, body: &[u8]) -> Vec<u8> {
@@ -373,7 +396,7 @@ fn config_file(dir: &Option<PathBuf>, text: String) -> ConfigFile {
 }
 
 /// Something else that holds the mutex around the compiled script: takes it now (returns once it has it), lets go
-/// `ms` later. The type behind the mutex is rotonda's business (roto::Compiled).
+/// `ms` later, then holds it again for HOLD_AGAIN_MS after each of the gaps HOLD_GAPS_US. The type behind the mutex is rotonda's business (roto::Compiled).
 fn hold_script<T: Send + 'static>(c: Option<std::sync::Arc<std::sync::Mutex<T>>>, ms: u64) -> Option<std::thread::JoinHandle<()>> {
     let c = c?;
     let (tx, rx) = std::sync::mpsc::channel();
@@ -382,6 +405,15 @@ fn hold_script<T: Send + 'static>(c: Option<std::sync::Arc<std::sync::Mutex<T>>>
         let _ = tx.send(());
         std::thread::sleep(Duration::from_millis(ms));
         drop(g);
+        // ... and takes it again, several times: the ingress units fetch their filter when their `run` starts, which is after the
+        // waitpoint that every unit of the load must have reached - the RIB units reach it only once they HAVE theirs (they fetch
+        // in RibUnitRunner::new), that is, once the first hold is over. The gaps let the waiting units through in turn.
+        for gap_us in HOLD_GAPS_US {
+            std::thread::sleep(Duration::from_micros(gap_us));
+            let g = c.lock();
+            std::thread::sleep(Duration::from_millis(HOLD_AGAIN_MS));
+            drop(g);
+        }
     });
     let _ = rx.recv();
     Some(h)
@@ -418,7 +450,7 @@ impl World {
             rt: Some(rt), mgr, bmp_port: ports[0], http_port: ports[1], spare_ports: ports[2..4].to_vec(),
             conns: BTreeMap::new(), parked: BTreeMap::new(), ghosts: vec![], accepted: [0; 2], lost: [0; 2], binds: [1; 2], two, bmp2_port: ports[5], running: [true, two], gen: 0, reloaded: false, variant: 0, ids_of: BTreeMap::new(), rids: BTreeMap::new(), notes: vec![], stalled: None,
             dir, desired, bgp_port: ports[4], wedged: false, hold_next: false,
-            bgp: if bgp { Some(BgpSide { port: ports[6], desired: bgp_cfg, loaded: bgp_cfg, conns: BTreeMap::new(), accepted: 0, updates: 0, seen: BTreeMap::new() }) } else { None },
+            bgp: if bgp { Some(BgpSide { port: ports[6], desired: bgp_cfg, loaded: bgp_cfg, conns: BTreeMap::new(), accepted: 0, updates: 0, seen: BTreeMap::new(), in_reject: ingress_rejects(script).map(|x| x.1) }) } else { None },
         };
         // the pipeline is up when the bmp-tcp-in unit has bound its listener (units start together, after their waitpoint)
         w.wait_metrics("listener bound", |t| metric_sum(t, "bmp_tcp_in_listener_bound_count_total", &[("component", UNIT)]) == Some(1));
@@ -861,6 +893,21 @@ impl World {
         if let Some(t) = self.bgp_gone(k) { return t; }
         let b = self.bgp.as_mut().unwrap();
         let _ = b.conns.get_mut(&k).unwrap().stream.write_all(bytes);
+        if b.in_reject == Some(65100 + k) {
+            // the unit's filter is expected to reject this UPDATE: nothing reaches the gate, no counter says that the session has
+            // read it. The expectation only says how long to wait: should an update come out after all, it is waited for and counted
+            let want = b.updates + 1;
+            let t0 = Instant::now();
+            while t0.elapsed() < Duration::from_millis(REJECT_WAIT_MS) {
+                let text = self.metrics();
+                if metric_sum(&text, "num_updates_total", &[("component", BGP_UNIT)]).unwrap_or(0) >= want {
+                    self.bgp.as_mut().unwrap().updates = want;
+                    break;
+                }
+                std::thread::sleep(Duration::from_millis(2));
+            }
+            return "-".into();
+        }
         b.updates += 1;
         self.bgp_settle();
         "-".into()
